@@ -25,7 +25,7 @@ func isCkptKey(db int, k string) bool { return strings.HasPrefix(k, "redis-shake
 // storedCheckpoint reads the newest checkpoint of source from the target model.
 func storedCheckpoint(tgt *modelredis.Server, source string) (off int64, db int, runid string, hasVersion bool) {
 	off, db = -1, -1
-	for d := range tgt.DBs {
+	for _, d := range tgt.DBIDs() {
 		e := tgt.Get(d, "redis-shake-checkpoint")
 		if e == nil || e.Val.Kind != rc.KHash {
 			continue
